@@ -5,6 +5,7 @@ import (
 	"fmt"
 	"math/rand"
 	"net"
+	"sort"
 	"sync"
 	"sync/atomic"
 	"testing"
@@ -310,11 +311,49 @@ func runC18Stress(t *testing.T, rng *rand.Rand, rec *sim.Rec, tier string, caseN
 	time.Sleep(300 * time.Millisecond) // timers of tiny lifetimes run out
 	if !closeDuring {
 		for _, mgr := range w.Srv.VerifManagers() {
-			if held := mgr.VerifLocksHeld(); len(held) > 0 {
-				time.Sleep(200 * time.Millisecond)
-				if held = mgr.VerifLocksHeld(); len(held) > 0 {
-					rec.Violate("lock-held", "after-stress", "mutex still held 500 ms after the stress ended: %v", held)
+			// A leaked mutex stays held for ever; one that an expiry handler holds for a moment (timers
+			// of tiny lifetimes go on firing, late on a loaded machine) does not: only a mutex found
+			// held at every one of up to 100 probes, 200 ms of wall time apart, counts.
+			// (While Manager.lock is taken the probe cannot look at the allocations' mutexes: such a
+			// sample says nothing about them.)
+			var stuck []string
+			cand := map[string]bool{}
+			looked := 0
+			for i := 0; i < 100; i++ {
+				held := mgr.VerifLocksHeld()
+				if len(held) == 1 && held[0] == "Manager.lock" {
+					time.Sleep(200 * time.Millisecond)
+
+					continue
 				}
+				now := map[string]bool{}
+				for _, h := range held {
+					now[h] = true
+				}
+				if looked == 0 {
+					cand = now
+				} else {
+					for k := range cand {
+						if !now[k] {
+							delete(cand, k)
+						}
+					}
+				}
+				looked++
+				if len(cand) == 0 {
+					break
+				}
+				time.Sleep(200 * time.Millisecond)
+			}
+			if looked == 0 {
+				stuck = []string{"Manager.lock"}
+			}
+			for k := range cand {
+				stuck = append(stuck, k)
+			}
+			sort.Strings(stuck)
+			if len(stuck) > 0 {
+				rec.Violate("lock-held", "after-stress", "mutex held at every one of 100 probes over 20 s after the stress ended: %v", stuck)
 			}
 		}
 		// the server still answers
@@ -322,7 +361,7 @@ func runC18Stress(t *testing.T, rng *rand.Rand, rec *sim.Rec, tier string, caseN
 		c := &stressClient{rng: rand.New(rand.NewSource(1)), udp: u, srv: w.ServerUDP[0].Addr()}
 		tid := c.tid()
 		c.send(wire.NewBuilder(wire.MethodBinding, wire.ClassRequest, tid).Bytes())
-		if r := c.recvUntil(tid, 2*time.Second); r == nil && !rec.Poisoned() {
+		if r := c.recvUntil(tid, 10*time.Second); r == nil && !rec.Poisoned() {
 			rec.Violate("stress-wedged", "binding", "the server does not answer a Binding request after the stress")
 		}
 	}
